@@ -3,7 +3,7 @@
    All statements are about the model instantiated with the Unicode tables of the Go toolchain
    (Consts.v): go_is_letter, go_is_number, go_to_lower. *)
 From Coq Require Import List Bool NArith.
-From C11 Require Import Model ModelDoc ModelMulti ModelLex ModelWire CaseDefs ProofsText ProofsPath ProofsSpec ProofsGo ProofsLex ProofsLexGo ProofsWire.
+From C11 Require Import Model ModelDoc ModelMulti ModelLex ModelWire CaseDefs ProofsText ProofsPath ProofsSpec ProofsGo ProofsLex ProofsLexGo ProofsWire ProofsMulti.
 Open Scope N_scope.
 
 (* Lower-casing agrees on both sides for EVERY byte string (valid UTF-8 or not, including runes whose
@@ -610,3 +610,37 @@ Proof. exact swapped_path_oversize_refuted. Qed.
    fresh copies of the original value (class multitype, spec checker), including length-changing lower-case runes,
    invalid bytes and cuts inside a rune. What is proved is the case-sensitive half and the first title
    (C11_flatten_value_seen_partial above). *)
+
+(* PROVED towards it (session 3 follow-up) — step (a) of the invariant, for EVERY byte string, invalid bytes included:
+   rewriting any selection of the decoded segments in place the way the loop of toLowerTryInplace does (an ASCII byte
+   through toLowerMap, a multi-byte rune re-encoded when its lower case has the same UTF-8 length, a stray byte and a
+   rune whose lower case has another length left alone) keeps the UTF-8 segmentation of the whole buffer: decoding the
+   rewritten buffer gives segment by segment the same boundaries, and each rune is the original one or its lower case
+   — also for a stray lead byte whose following bytes were rewritten (its failing byte stays a failing byte), which
+   was the stated blocker. The buffer has the same length. *)
+Theorem C11_inplace_lowercase_keeps_segments :
+  forall s sel,
+    Forall2 (fun sg sg' : seg => length (snd sg') = length (snd sg) /\
+                                 (fst sg' = fst sg \/ fst sg' = go_to_lower (fst sg)))
+            (segs s) (segs (apply_low go_to_lower sel (segs s))) /\
+    length (apply_low go_to_lower sel (segs s)) = length s.
+Proof. exact go_inplace_keeps_segments. Qed.
+Print Assumptions C11_inplace_lowercase_keeps_segments.
+
+(* ... and the buffer that toLowerTryInplace leaves behind (model: snd (lower_full s); the loop ran to the end, or was
+   abandoned at the first rune whose lower case has another length / the first stray byte, where the code returns the
+   freshly allocated bytes.Map result and does NOT write it back into the shared buffer) is such a rewriting. *)
+Theorem C11_inplace_buffer_keeps_segments :
+  forall s,
+    Forall2 (fun sg sg' : seg => length (snd sg') = length (snd sg) /\
+                                 (fst sg' = fst sg \/ fst sg' = go_to_lower (fst sg)))
+            (segs s) (segs (snd (lower_full go_to_lower s))) /\
+    length (snd (lower_full go_to_lower s)) = length s.
+Proof. exact go_lower_full_buffer_keeps_segments. Qed.
+Print Assumptions C11_inplace_buffer_keeps_segments.
+
+(* STILL MISSING for C11_multitype_inplace_invariant: (b1) the same alignment across a size-limit cut
+   (segs (firstn n buffer) against segs (firstn n original), a cut inside a rune leaves stray bytes in both) and across
+   the re-appended tail; (b2) for each tokenizer, that its tokens depend on the value only through boundaries,
+   lower-cased runes and rune classes (needs is_letter / is_number invariant under to_lower, checkable over the dumped
+   table), and that path_loop / text_loop leave buffers of the above form. *)
